@@ -19,14 +19,16 @@ Definition kg_ranges (count n : N) : list kgrange :=
 
 (* rangeLookup: for i, r in ranges: for j in [r.Start, r.End): rangeLookup[j] = uint16(i).
    The table has keyGroupCount entries, initially 0; modelled as list update. *)
+Fixpoint fill_span (t : list N) (len : nat) (v : N) : list N :=
+  match len, t with
+  | O, _ => t
+  | S l', _ :: t' => v :: fill_span t' l' v
+  | S _, [] => []           (* index out of range: Go would panic; never reached for valid ranges *)
+  end.
+
 Fixpoint set_span (tbl : list N) (start len : nat) (v : N) : list N :=
   match start, tbl with
-  | O, _ => (fix fill (t : list N) (l : nat) : list N :=
-               match l, t with
-               | O, _ => t
-               | S l', _ :: t' => v :: fill t' l'
-               | S _, [] => []           (* index out of range: Go would panic; never reached for valid ranges *)
-               end) tbl len
+  | O, _ => fill_span tbl len v
   | S s', x :: t' => x :: set_span t' s' len v
   | S _, [] => []
   end.
